@@ -328,7 +328,7 @@ func contract_unmarshalOptions_DiscardUnknown(o unmarshalOptions) (r bool) {
 // The fast-path entry point hands the caller's flags, resolver and recursion budget to the decoder
 // unchanged.
 //
-// @ props C06 C09
+// @ props C06 C09 C17
 // @ mode int
 // @ nopanic
 // @ guard-errors
@@ -413,5 +413,44 @@ func specRequiredWire(typ validationType, wtyp protowire.Type) bool {
 // @ site st.requiredMask |= vi.requiredBit: specRequiredWire(vi.typ, wtyp)
 func contract_MessageInfo_validate(mi *MessageInfo, b []byte, groupTag protowire.Number, opts unmarshalOptions) (out unmarshalOutput, result ValidationStatus) {
 	modifiesAll()
+	// assumed (the validator's explicit state stack is outside the subset): a buffer reported
+	// valid was measured inside the buffer
+	ensuresTrusted(imp(result == ValidationValid, 0 <= out.n && out.n <= len(b)))
+	return
+}
+
+// ---------------------------------------------------------------- lazy decoding: the tag loop and the index (C17, C06)
+
+// skipField validates a lazy message/group field without decoding it: when it reports the field
+// valid, the length it reports lies inside the buffer.
+//
+// @ props C17 C06
+// @ mode int
+// @ nopanic
+func contract_MessageInfo_skipField(mi *MessageInfo, b []byte, f *coderFieldInfo, wtyp protowire.Type, opts unmarshalOptions) (out unmarshalOutput, st ValidationStatus) {
+	modifiesAll()
+	ensures(imp(st == ValidationValid, 0 <= out.n && out.n <= len(b)))
+	return
+}
+
+// The lazy tag loop: like the eager loop it only ever advances inside its input; in addition
+// every entry it records in the lazy index describes a byte range [Start, End) of the buffer
+// with Start <= End (positions measured from the start of the buffer), for buffers below 4 GiB
+// (the index stores 32-bit positions).
+//
+// @ props C17 C06
+// @ mode int
+// @ nopanic
+// @ loop 1 invariant suffixOf(b, old(b)) || (lazyDecode && len(b) <= start)
+// @ loop 1 invariant 0 <= pos && pos == start-len(b) && pos <= start && start == len(old(b))
+// @ site b = b[n:]: 0 <= n && n <= len(b)
+// @ site b = b[1:]: 1 <= len(b)
+// @ site b = b[2:]: 2 <= len(b)
+// @ site end := start - len(b): 0 <= pos && pos <= start-len(b) && start-len(b) <= start
+func contract_MessageInfo_unmarshalPointerLazy(mi *MessageInfo, b []byte, p pointer, groupTag protowire.Number, opts unmarshalOptions) (out unmarshalOutput, err error) {
+	requires(mi != nil && p.p != nil)
+	requires(len(b) < 1<<32)
+	modifiesAll()
+	ensures(imp(err == nil, 0 <= out.n && out.n <= len(b)))
 	return
 }
